@@ -42,6 +42,10 @@ impl<'doc> Visit<'doc> for Log {
         self.ev("array");
         visit::visit_array(self, node);
     }
+    fn visit_value(&mut self, node: &'doc toml_edit::Value) {
+        self.ev("value");
+        visit::visit_value(self, node);
+    }
     fn visit_array_of_tables(&mut self, node: &'doc ArrayOfTables) {
         self.ev("aot");
         visit::visit_array_of_tables(self, node);
@@ -86,6 +90,10 @@ impl VisitMut for LogMut {
     fn visit_array_mut(&mut self, node: &mut Array) {
         self.log.ev("array");
         visit_mut::visit_array_mut(self, node);
+    }
+    fn visit_value_mut(&mut self, node: &mut toml_edit::Value) {
+        self.log.ev("value");
+        visit_mut::visit_value_mut(self, node);
     }
     fn visit_array_of_tables_mut(&mut self, node: &mut ArrayOfTables) {
         self.log.ev("aot");
